@@ -174,14 +174,20 @@ def model_requests(s):
             {"op": "text.unescape", "s": s, "escaped": True}]
 
 
-def standalone(s):
-    """Oracle: Element with text s and attribute k=s -> plain()/str() -> expat and suds' own parser."""
+def standalone(s, via_text_api=False):
+    """Oracle: Element with text s and attribute k=s -> plain()/str() -> expat and suds' own parser.
+    via_text_api: the value first goes through the public Text API, Text(s).escape().unescape() (a string again)."""
     from suds.sax.element import Element
     from suds.sax.parser import Parser
     res = {}
     e = Element("a")
-    e.setText(s)
-    e.set("k", s)
+    if via_text_api:
+        from suds.sax.text import Text
+        e.setText(Text(s).escape().unescape())
+        e.set("k", Text(s).escape().unescape())
+    else:
+        e.setText(s)
+        e.set("k", s)
     for name, out in (("plain", e.plain()), ("str", e.str())):
         try:
             root = xmlread.parse(out)
@@ -280,6 +286,14 @@ def check_string(ctx, paths, s, model, deep):
         if att is not None and att != s:
             ctx.fail("attribute value not recovered (%s)" % path, inp, att, s, direction="request",
                      position="attr", path=path)
+    for path, (txt, att) in standalone(s, via_text_api=True).items():
+        ctx.case(("tree-text-api", path, s), nontrivial)
+        if txt != s:
+            ctx.fail("element text not recovered after Text.escape().unescape() (%s)" % path, inp, txt, s,
+                     direction="request", position="text", path=path)
+        if att is not None and att != s:
+            ctx.fail("attribute value not recovered after Text.escape().unescape() (%s)" % path, inp, att, s,
+                     direction="request", position="attr", path=path)
     for path, att in standalone_qualified(s).items():
         ctx.case(("tree-qattr", path, s), nontrivial)
         if att != s and not (s == "" and att in (None, "")):
